@@ -38,11 +38,25 @@ pub(super) fn extract_atomic(
 
     // sometimes, additional columns will be added into select, because they are needed for
     // other clauses. To filter them out, we use an additional limiting SELECT.
+    #[cfg(prqlc_verif)]
+    let verif_output = verif::cids(&output);
     let output: Vec<_> = CidRedirector::redirect_cids(output, &atomic, ctx);
     let select_cols = atomic
         .iter()
         .find_map(|x| x.as_super().and_then(|y| y.as_select()))
         .unwrap();
+    // verification hook: the limiting-SELECT decision and what it is taken on
+    #[cfg(prqlc_verif)]
+    log::debug!(
+        "verif:extract_atomic {}",
+        serde_json::json!({
+            "output": verif_output,
+            "first": verif::pipeline(&atomic[..1.min(atomic.len())], ctx),
+            "output_redirected": verif::cids(&output),
+            "select_cols": verif::cids(select_cols),
+            "extra": select_cols.iter().any(|c| !output.contains(c)),
+        })
+    );
     if select_cols.iter().any(|c| !output.contains(c)) {
         log::debug!(
             "appending a projection SELECT, because previous one contained un-selected columns"
@@ -74,6 +88,10 @@ pub(super) fn split_off_back(
     if pipeline.is_empty() {
         return (None, Vec::new());
     }
+
+    // verification hook: everything this call reads
+    #[cfg(prqlc_verif)]
+    let verif_in = serde_json::json!({"pipeline": verif::pipeline(&pipeline, ctx), "output": verif::cids(&output)});
 
     let mapping_before = compute_positional_mappings(&pipeline, None);
 
@@ -187,6 +205,18 @@ pub(super) fn split_off_back(
 
     curr_pipeline_rev.reverse();
 
+    // verification hook: what this call returns
+    #[cfg(prqlc_verif)]
+    log::debug!(
+        "verif:split_off_back {}",
+        serde_json::json!({
+            "in": verif_in,
+            "remaining_len": remaining_pipeline.as_ref().map(|p| p.len()),
+            "missing": remaining_pipeline.as_ref().map(|p| verif::pipeline(&p[p.len() - 1..], ctx)),
+            "atomic": verif::pipeline(&curr_pipeline_rev, ctx),
+        })
+    );
+
     // This will compare columns for order sensitive transform and correct it in subsequent relation.
     let mapping_after = compute_positional_mappings(&curr_pipeline_rev, Some(&inputs_required));
     for (riid, after) in mapping_after {
@@ -237,6 +267,16 @@ pub(super) fn anchor_split(
 
     log::debug!("split pipeline, first pipeline output: {cols_at_split:?}");
 
+    // verification hook: the part of the context this call reads
+    #[cfg(prqlc_verif)]
+    let verif_in = serde_json::json!({
+        "cols_at_split": verif::cids(cols_at_split),
+        "decls": cols_at_split.iter().map(|c| verif::decl_class(ctx, c)).collect::<Vec<_>>(),
+        "names": cols_at_split.iter().map(|c| ctx.column_names.get(c).cloned()).collect::<Vec<_>>(),
+        "next_cid": ctx.cid.clone().gen().get(),
+        "next_name": ctx.col_name.clone().gen(),
+    });
+
     // redefine columns of the atomic pipeline
     let mut cid_redirects = HashMap::<CId, CId>::new();
     let mut new_columns = Vec::new();
@@ -272,6 +312,21 @@ pub(super) fn anchor_split(
         cid_redirects.insert(*old_cid, new_cid);
     }
 
+    // verification hook: what the loop above produced
+    #[cfg(prqlc_verif)]
+    let verif_mid = serde_json::json!({
+        "new_columns": new_columns.iter().map(|(col, cid)| serde_json::json!({
+            "cid": cid.get(),
+            "wildcard": matches!(col, RelationColumn::Wildcard),
+            "name": match col { RelationColumn::Single(n) => n.clone(), RelationColumn::Wildcard => None },
+        })).collect::<Vec<_>>(),
+        "redirects": verif::redirects(&cid_redirects),
+        "old_names_after": cols_at_split.iter().map(|c| ctx.column_names.get(c).cloned()).collect::<Vec<_>>(),
+        "new_names_after": new_columns.iter().map(|(_, c)| ctx.column_names.get(c).cloned()).collect::<Vec<_>>(),
+        "next_cid": ctx.cid.clone().gen().get(),
+        "next_name": ctx.col_name.clone().gen(),
+    });
+
     // define a new table
     let columns = cols_at_split
         .iter()
@@ -304,7 +359,19 @@ pub(super) fn anchor_split(
     let mut second = atomic;
     second.insert(0, SqlTransform::From(riid));
 
-    CidRedirector::redirect_pipeline(second, ctx)
+    #[cfg(prqlc_verif)]
+    let verif_second = verif::pipeline(&second, ctx);
+
+    let second = CidRedirector::redirect_pipeline(second, ctx);
+
+    // verification hook: the atomic pipeline before and after the redirection
+    #[cfg(prqlc_verif)]
+    log::debug!(
+        "verif:anchor_split {}",
+        serde_json::json!({"in": verif_in, "mid": verif_mid, "second": verif_second, "redirected": verif::pipeline(&second, ctx)})
+    );
+
+    second
 }
 
 /// Determines whether a pipeline must be split at a transform to
@@ -758,5 +825,130 @@ impl PqMapper<RIId, RIId, Transform, Transform> for CidRedirector<'_> {
 
     fn fold_super(&mut self, sup: Transform) -> Result<Transform> {
         self.fold_transform(sup)
+    }
+}
+
+/// Verification hooks (never compiled in normal builds): read-only JSON views of what the
+/// functions above read and return.
+#[cfg(prqlc_verif)]
+mod verif {
+    use serde_json::{json, Value};
+
+    use super::*;
+    use crate::ir::rq::ExprKind;
+    use prqlc_parser::generic::InterpolateItem;
+
+    pub fn cids(v: &[CId]) -> Vec<usize> {
+        v.iter().map(|c| c.get()).collect()
+    }
+
+    fn sorts(v: &[ColumnSort<CId>]) -> Vec<usize> {
+        v.iter().map(|s| s.column.get()).collect()
+    }
+
+    pub fn redirects(m: &HashMap<CId, CId>) -> Vec<(usize, usize)> {
+        let mut v: Vec<_> = m.iter().map(|(k, v)| (k.get(), v.get())).collect();
+        v.sort();
+        v
+    }
+
+    pub fn decl_class(ctx: &AnchorContext, cid: &CId) -> Value {
+        match ctx.column_decls.get(cid) {
+            Some(ColumnDecl::RelationColumn(_, _, RelationColumn::Wildcard)) => json!("wildcard"),
+            Some(ColumnDecl::RelationColumn(_, _, RelationColumn::Single(Some(n)))) => json!({"named": n}),
+            Some(ColumnDecl::RelationColumn(_, _, RelationColumn::Single(None))) => json!("unnamed"),
+            Some(ColumnDecl::Compute(_)) => json!("compute"),
+            None => json!("undeclared"),
+        }
+    }
+
+    /// expression tree: column references and the node kinds that decide `infer_complexity_expr`,
+    /// children in the order of `RqFold::fold_expr_kind`
+    fn expr(e: &Expr) -> Value {
+        match &e.kind {
+            ExprKind::ColumnRef(c) => json!({"col": c.get()}),
+            ExprKind::Literal(_) => json!("lit"),
+            ExprKind::Param(_) => json!("param"),
+            ExprKind::SString(items) => json!({"sstring": items
+                .iter()
+                .filter_map(|i| match i {
+                    InterpolateItem::Expr { expr: e, .. } => Some(expr(e)),
+                    InterpolateItem::String(_) => None,
+                })
+                .collect::<Vec<_>>()}),
+            ExprKind::Case(cases) => json!({"case": cases
+                .iter()
+                .flat_map(|c| [expr(&c.condition), expr(&c.value)])
+                .collect::<Vec<_>>()}),
+            ExprKind::Operator { args, .. } => json!({"op": args.iter().map(expr).collect::<Vec<_>>()}),
+            ExprKind::Array(es) => json!({"array": es.iter().map(expr).collect::<Vec<_>>()}),
+        }
+    }
+
+    fn opt_exprs(start: &Option<Expr>, end: &Option<Expr>) -> Vec<Value> {
+        [start, end].into_iter().flatten().map(expr).collect()
+    }
+
+    fn compute(c: &Compute) -> Value {
+        json!({
+            "id": c.id.get(),
+            "is_aggregation": c.is_aggregation,
+            "expr": expr(&c.expr),
+            "window": c.window.as_ref().map(|w| json!({
+                "partition": cids(&w.partition),
+                "sort": sorts(&w.sort),
+                "frame": opt_exprs(&w.frame.range.start, &w.frame.range.end),
+            })),
+        })
+    }
+
+    fn rel(ctx: &AnchorContext, riid: &RIId) -> Value {
+        match ctx.relation_instances.get(riid) {
+            Some(r) => json!({
+                "cols": r.table_ref.columns.iter().map(|(_, c)| c.get()).collect::<Vec<_>>(),
+                "redirects": redirects(&r.cid_redirects),
+            }),
+            None => Value::Null,
+        }
+    }
+
+    fn transform(t: &SqlTransform, ctx: &AnchorContext) -> Value {
+        use SqlTransform::Super;
+        let mut o = json!({"kind": t.as_str(), "super": matches!(t, Super(_))});
+        match t {
+            SqlTransform::From(r) => o["rel"] = rel(ctx, r),
+            SqlTransform::Join { with, filter, .. } => {
+                o["rel"] = rel(ctx, with);
+                o["expr"] = expr(filter);
+            }
+            Super(Transform::Compute(c)) => o["compute"] = compute(c),
+            Super(Transform::Aggregate { partition, compute: cs }) => {
+                o["partition"] = json!(cids(partition));
+                o["cids"] = json!(cids(cs));
+                // what the loop over the aggregate's columns looks up
+                o["decls"] = cs
+                    .iter()
+                    .map(|cid| match ctx.column_decls.get(cid) {
+                        Some(ColumnDecl::Compute(c)) => compute(c),
+                        _ => Value::Null,
+                    })
+                    .collect();
+            }
+            Super(Transform::Filter(e)) => o["expr"] = expr(e),
+            Super(Transform::Sort(s)) | SqlTransform::Sort(s) => o["cids"] = json!(sorts(s)),
+            Super(Transform::Take(take)) => {
+                o["partition"] = json!(cids(&take.partition));
+                o["cids"] = json!(sorts(&take.sort));
+                o["range"] = json!(opt_exprs(&take.range.start, &take.range.end));
+            }
+            Super(Transform::Select(c)) => o["cids"] = json!(cids(c)),
+            SqlTransform::DistinctOn(p) => o["cids"] = json!(cids(p)),
+            _ => (),
+        }
+        o
+    }
+
+    pub fn pipeline(p: &[SqlTransform], ctx: &AnchorContext) -> Vec<Value> {
+        p.iter().map(|t| transform(t, ctx)).collect()
     }
 }
